@@ -4,7 +4,7 @@
 //!   P <impl> <host> <maxsteps> <cp>,<cp>,...       program: source text as hex code points ("-" = empty)
 //!   O <impl> <host> <Instruction>[:<data>] <v|-> <v|->   one runtime step on directly constructed operands
 //!   X <fn> <impl> ...                              index arithmetic observed through the public getters
-//!        usize | item | iter | access | raccess | cast | range | lenof  (see run_x)
+//!        usize | item | iter | access | raccess | cast | range | lenof | mklist | eqregs | endlist | bsearch | cwin  (see run_x)
 //!                                                  (model correspondence, see ocaml/idx_driver.ml)
 //!   impl  S = SimpleGarnishData, B = BasicGarnishData
 //!   host  A = absent (default handlers / NoOpCompanion), D = declining, Y = accepting
@@ -168,6 +168,14 @@ trait Host: GarnishData<Size = usize, Number = SimpleNumber, Symbol = u64, Char 
     fn mk_bytes(&mut self, b: &[u8]) -> Result<usize, DataError>;
     fn mk_custom(&mut self) -> Result<Option<usize>, DataError>;
     fn mk_invalid(&mut self) -> Result<Option<usize>, DataError>;
+    /// SimpleGarnishData: the association table of a list as stored (item addresses, 0 = free slot)
+    fn simple_assoc_table(&self, _list: usize) -> Option<Vec<usize>> {
+        None
+    }
+    /// BasicGarnishData: the (symbol, value address) cells of a list's association table, in heap order
+    fn basic_assoc_cells(&self, _list: usize) -> Option<Vec<(u64, usize)>> {
+        None
+    }
 }
 
 impl Host for Simple {
@@ -182,6 +190,14 @@ impl Host for Simple {
     }
     fn mk_invalid(&mut self) -> Result<Option<usize>, DataError> {
         Ok(None)
+    }
+    fn simple_assoc_table(&self, list: usize) -> Option<Vec<usize>> {
+        let n = self.get_list_associations_len(list).ok()?;
+        let mut v = vec![];
+        for i in 0..n {
+            v.push(self.get_list_association(list, SimpleNumber::Integer(i as i32)).ok()?.unwrap_or(0));
+        }
+        Some(v)
     }
 }
 
@@ -199,6 +215,23 @@ macro_rules! basic_host {
             }
             fn mk_invalid(&mut self) -> Result<Option<usize>, DataError> {
                 self.push_to_data_block(BasicData::Empty).map(Some)
+            }
+            fn basic_assoc_cells(&self, list: usize) -> Option<Vec<(u64, usize)>> {
+                let layout = self.verif_block_layout();
+                let data_start = layout[4].0;
+                let heap = self.verif_heap();
+                let (len, n) = match heap.get(data_start + list)? {
+                    BasicData::List(len, n) => (*len, *n),
+                    _ => return None,
+                };
+                let mut v = vec![];
+                for i in 0..n {
+                    match heap.get(data_start + list + 1 + len + i)? {
+                        BasicData::AssociativeItem(sym, addr) => v.push((*sym, *addr)),
+                        _ => return None,
+                    }
+                }
+                Some(v)
             }
         }
     };
@@ -776,6 +809,109 @@ fn run_x<D: Host>(mut d: D, p: &[&str]) -> (String, String) {
                         let top = d.get_register(n - 1).expect("top");
                         Ok(format!("Ok {}", show_item(&d, top)))
                     }
+                }
+            }
+            // X mklist <impl> <n> <k>: MakeList n with k values (100, 101, ...) in the registers
+            "mklist" => {
+                let n: usize = p[1].parse().unwrap_or(0);
+                let k: usize = p[2].parse().unwrap_or(0);
+                for i in 0..k {
+                    let a = int(&mut d, 100 + i as i32)?;
+                    d.push_register(a)?;
+                }
+                d.push_instruction(Instruction::MakeList, Some(n))?;
+                d.push_instruction(Instruction::Invalid, None)?;
+                d.set_instruction_cursor(0)?;
+                match execute_current_instruction(&mut d) {
+                    Err(_) => Ok("Err".to_string()),
+                    Ok(_) => {
+                        let len = d.get_register_len();
+                        let top = d.get_register(len - 1).expect("top");
+                        Ok(format!("Ok {} regs={}", show_list_value(&d, top), len))
+                    }
+                }
+            }
+            // X eqregs <impl> <k>: Equal with k registers (all the number 1)
+            "eqregs" => {
+                let k: usize = p[1].parse().unwrap_or(0);
+                for _ in 0..k {
+                    let a = int(&mut d, 1)?;
+                    d.push_register(a)?;
+                }
+                d.push_instruction(Instruction::Equal, None)?;
+                d.push_instruction(Instruction::Invalid, None)?;
+                d.set_instruction_cursor(0)?;
+                match execute_current_instruction(&mut d) {
+                    Err(_) => Ok("Err".to_string()),
+                    Ok(_) => Ok(format!("Ok regs={}", d.get_register_len())),
+                }
+            }
+            // X endlist S <n> <stride>: the association table SimpleGarnishData::end_list builds for n plain items
+            "endlist" => {
+                let n: usize = p[1].parse().unwrap_or(0);
+                let stride: i32 = p[2].parse().unwrap_or(1);
+                let mut items = vec![];
+                for i in 0..n {
+                    items.push(int(&mut d, 1000 + (i as i32) * stride)?);
+                    // spread the addresses: intern `stride - 1` other values in between
+                    for j in 1..stride {
+                        int(&mut d, 500000 + (i as i32) * stride + j)?;
+                    }
+                }
+                let l = list_of(&mut d, &items)?;
+                match d.simple_assoc_table(l) {
+                    None => Ok("UNBUILDABLE".to_string()),
+                    Some(t) => Ok(format!(
+                        "Ok {}|{}",
+                        items.iter().map(|x| x.to_string()).collect::<Vec<_>>().join(","),
+                        t.iter().map(|x| x.to_string()).collect::<Vec<_>>().join(",")
+                    )),
+                }
+            }
+            // X bsearch B <n> <j>: look symbol s<j> up in a list of n pairs s<i> = 100 + i
+            "bsearch" => {
+                let n: usize = p[1].parse().unwrap_or(0);
+                let j: usize = p[2].parse().unwrap_or(0);
+                let mut items = vec![];
+                for i in 0..n {
+                    let key = d.parse_add_symbol(&format!("s{}", i))?;
+                    let val = int(&mut d, 100 + i as i32)?;
+                    items.push(d.add_pair((key, val))?);
+                }
+                let l = list_of(&mut d, &items)?;
+                let cells = match d.basic_assoc_cells(l) {
+                    None => return Ok("UNBUILDABLE".to_string()),
+                    Some(c) => c,
+                };
+                let sym = symbol_value(&format!("s{}", j));
+                let found = match d.get_list_item_with_symbol(l, sym) {
+                    Ok(Some(a)) => show_item(&d, a),
+                    Ok(None) => "none".to_string(),
+                    Err(_) => "err".to_string(),
+                };
+                Ok(format!(
+                    "Ok {}|{:x}|{}",
+                    cells.iter().map(|(s, a)| format!("{:x}:{}", s, show_item(&d, *a))).collect::<Vec<_>>().join(","),
+                    sym,
+                    found
+                ))
+            }
+            // X cwin S <n> <start num> <end num>: items of  (slice of an n-item concatenation) <> 999
+            "cwin" => {
+                let n: usize = p[1].parse().unwrap_or(2);
+                let inner = match mk_container(&mut d, "n", n)? {
+                    Some(c) => c,
+                    None => return Ok("UNBUILDABLE".to_string()),
+                };
+                let s0 = d.add_number(parse_num(p[2]).expect("num"))?;
+                let e0 = d.add_number(parse_num(p[3]).expect("num"))?;
+                let r = d.add_range(s0, e0)?;
+                let sl = d.add_slice(inner, r)?;
+                let extra = int(&mut d, 999)?;
+                let outer = d.add_concatenation(sl, extra)?;
+                match d.get_concatenation_iter(outer, Extents::new(SimpleNumber::Integer(0), SimpleNumber::Float(f64::MAX))) {
+                    Ok(it) => Ok(format!("Ok {}", it.count())),
+                    Err(_) => Ok("Err".to_string()),
                 }
             }
             // X item <impl> <kind> <len> <num>: the get_*_item getters
